@@ -698,6 +698,65 @@ def run_lateunit(ctx, case):
         ctx.judge(False, case, sig, "C08:" + mech, None, detail)
 
 
+def gen_behind_incomplete(rng, R):
+    ch = chr(rng.choice([0x416, 0x4E00, 0x20AC, 0x1F600])).encode("utf-8")
+    pt = rng.choice([1, 8, 50])
+    return {"kind": "behind-incomplete", "paste_threshold": pt, "pre": bytes(rng.randrange(ord("a"), ord("w") + 1)
+                                                                          for _ in range(rng.randint(0, 3))),
+            "char": ch, "cut": rng.randint(1, len(ch) - 1), "burst": b"x" * rng.choice([pt + 40, 200, 500, 1000])}
+
+
+def run_behind_incomplete(ctx, case):
+    """the start of a multi-byte character is buffered, the rest of it arrives together with a burst
+    far larger than the paste threshold: the character is completed, and the burst is still
+    recognisable as a paste - all of it but the few keypresses a completing read may take along
+    (fewer than the maximum keypress length) comes back in one PasteEvent"""
+    from curtsies import events
+    R = rig()
+    pt, ch, k, data = case["paste_threshold"], case["char"], case["cut"], case["burst"]
+    first = case["pre"] + ch[:k]
+    R.pty.drain_slave()
+    inp = R.ci.Input(R.pty.stream, keynames="bytes", paste_threshold=None if False else pt)
+    hist, problems = [], []
+
+    def req(to=0):
+        t0 = time.monotonic()
+        try:
+            ret = describe(inp.send(to))
+        except Exception as ex:  # noqa
+            ret = ("raise", type(ex).__name__, str(ex)[:120])
+        hist.append({"k": "req", "timeout": to, "t0": t0, "t1": time.monotonic(), "w0": 0, "w1": 0, "ret": ret})
+        return ret
+    try:
+        with inp:
+            if not R.pty.feed(first):
+                ctx.inconclusive_because("pty did not deliver within 5 s")
+                return
+            hist.append({"k": "write", "data": first, "t": time.monotonic()})
+            for _ in range(len(first) + 2):
+                if req()[0] in ("none", "raise"):
+                    break
+            if not R.pty.feed(ch[k:] + data):
+                ctx.inconclusive_because("pty did not deliver within 5 s")
+                return
+            hist.append({"k": "write", "data": ch[k:] + data, "t": time.monotonic()})
+            for _ in range(len(data) + 6):
+                if req()[0] in ("none", "raise"):
+                    break
+    except Exception as ex:  # noqa
+        problems.append(("raise", {"outside request": repr(ex)}))
+    problems += inputq.check(hist, drained=True)
+    if not problems:
+        pastes = [r["ret"][1] for r in hist if r["k"] == "req" and r["ret"][0] == "paste"]
+        in_paste = sum(len(b"".join(p)) for p in pastes)
+        burst_pastes = [p for p in pastes if b"x" in b"".join(p)]
+        if len(burst_pastes) != 1 or len(data) - sum(b"".join(p).count(b"x") for p in burst_pastes) >= events.MAX_KEYPRESS_SIZE:
+            problems.append(("burst-behind-incomplete-keypress-not-a-paste",
+                             {"burst_len": len(data), "threshold": pt, "paste_events_holding_burst_keys": len(burst_pastes),
+                              "burst_bytes_inside_paste_events": in_paste}))
+    finish_history(ctx, case, hist, problems)
+
+
 def run_flood(ctx, case):
     """tens of kilobytes written by another thread while the requesting thread keeps asking:
     the kernel hands the burst out in pieces of its own choosing (4095 bytes at most), so
@@ -1102,6 +1161,8 @@ def run_case(ctx, case):
         run_prefixchar(ctx, case)
     elif case["kind"] == "lateunit":
         run_lateunit(ctx, case)
+    elif case["kind"] == "behind-incomplete":
+        run_behind_incomplete(ctx, case)
     elif case["kind"] == "split":
         run_split(ctx, case)
 
@@ -1126,6 +1187,9 @@ def run(ctx):
     for _ in range(ctx.share(200 if quick else 8000)):
         run_split(ctx, gen_split(rng, R))
         ctx.count("split_keypress_histories")
+    for _ in range(ctx.share(80 if quick else 3000)):
+        run_behind_incomplete(ctx, gen_behind_incomplete(rng, R))
+        ctx.count("bursts_behind_incomplete_keypress")
     for _ in range(ctx.share(160 if quick else 6000)):
         run_lateunit(ctx, gen_lateunit(rng, R))
     for _ in range(ctx.share(120 if quick else 5000)):
